@@ -190,23 +190,46 @@ def task_offcurve(a, env):
     S = PL.get(a["cfg"])
     fam = a["fam"]
     r = R("%s:%s:off-curve-refused" % (a["cfg"], fam))
+    _error_path_history(a["cfg"])
     for i, (lbl, lq, lp) in enumerate(_offcurve_cases(S, fam, env)):
-        o = PL.call(S.pair(fam).pairing, lq, lp)
-        r.ev += 1
-        r.dk.add(lbl)
-        if o[0] != "raise":
-            r.viol("C05:%s:%s:off-curve-accepted:%s" % (a["cfg"], fam, lbl.split(":")[0]),
-                   ME + ":replay_off", {"cfg": a["cfg"], "fam": fam, "i": i, "seed": env["seed"]},
-                   "an exception", "returned a value")
+        flags = (None,) if fam == "ref" else (None, False, True)
+        for fe in flags:
+            o = PL.call(S.pair(fam).pairing, lq, lp) if fe is None else PL.call(S.pair(fam).pairing, lq, lp, final_exponentiate=fe)
+            r.ev += 1
+            r.dk.add((lbl, str(fe)))
+            if o[0] != "raise":
+                r.viol("C05:%s:%s:off-curve-accepted:%s%s" % (a["cfg"], fam, lbl.split(":")[0], "" if fe is None else ":final_exponentiate=%s" % fe),
+                       ME + ":replay_off", {"cfg": a["cfg"], "fam": fam, "i": i, "seed": env["seed"], "fe": fe},
+                       "an exception", "returned a value")
     r.sample({"cfg": a["cfg"], "module": fam, "labels": sorted(r.dk)[:4]})
     return r
+
+
+def _error_path_history(cfg):
+    """full-size BLS12-381 only: verification calls that fail inside the library (an identity key in
+    the aggregate loop, a malformed signature) before the pairing is asked to refuse a point"""
+    if cfg != "bls12_381":
+        return
+    import importlib
+    from ..model import bls as MB
+
+    B = importlib.import_module("py_ecc.bls")
+    pk, ident = MB.sk_to_pk(5), MB.g1_bytes(None)
+    sig = MB.sign("basic", 5, b"m")
+    for C in (B.G2Basic, B.G2ProofOfPossession):
+        PL.call(C.AggregateVerify, [pk, ident], [b"m", b"n"], sig)
+        PL.call(C.AggregateVerify, [ident], [b"m"], sig)
+        PL.call(C.Verify, pk, b"m", b"\x00" * 96)
+    PL.call(B.G2ProofOfPossession.FastAggregateVerify, [pk, ident], b"m", sig)
 
 
 def replay_off(a):
     S = PL.get(a["cfg"])
     env = {"seed": a["seed"], "pid": "C05", "tier": "quick"}
     lbl, lq, lp = _offcurve_cases(S, a["fam"], env)[a["i"]]
-    o = PL.call(S.pair(a["fam"]).pairing, lq, lp)
+    _error_path_history(a["cfg"])
+    fe = a.get("fe")
+    o = PL.call(S.pair(a["fam"]).pairing, lq, lp) if fe is None else PL.call(S.pair(a["fam"]).pairing, lq, lp, final_exponentiate=fe)
     return None if o[0] == "raise" else {"case": lbl, "expected": "an exception", "observed": "returned a value"}
 
 
